@@ -42,6 +42,7 @@ type incremental[Obj comparable] struct {
 type opResult struct {
 	original any              // the original object
 	rev      statedb.Revision // revision of the object
+	origRev  statedb.Revision // revision of the change being reconciled (differs from 'rev' when retrying)
 	err      error
 	id       uint64 // the "pending" identifier
 }
@@ -96,7 +97,7 @@ func (incr *incremental[Obj]) single(ctx context.Context, txn statedb.ReadTxn, c
 		// Clear retries as the object has changed.
 		incr.retries.Clear(obj)
 
-		incr.processSingle(ctx, txn, obj, rev, change.Deleted)
+		incr.processSingle(ctx, txn, obj, rev, rev, change.Deleted)
 		incr.numReconciled++
 		if incr.numReconciled >= incr.config.IncrementalRoundSize {
 			break
@@ -177,7 +178,7 @@ func (incr *incremental[Obj]) batch(ctx context.Context, txn statedb.ReadTxn, ch
 			if entry.Result == nil {
 				incr.retries.Clear(entry.Object)
 			}
-			incr.results[entry.Object] = opResult{rev: entry.Revision, id: status.ID, err: entry.Result, original: entry.original}
+			incr.results[entry.Object] = opResult{rev: entry.Revision, origRev: entry.Revision, id: status.ID, err: entry.Result, original: entry.original}
 		}
 	}
 
@@ -192,13 +193,13 @@ func (incr *incremental[Obj]) processRetries(ctx context.Context, txn statedb.Re
 			break
 		}
 		incr.retries.Pop()
-		incr.processSingle(ctx, txn, item.object.(Obj), item.rev, item.delete)
+		incr.processSingle(ctx, txn, item.object.(Obj), item.rev, item.origRev, item.delete)
 		incr.numReconciled++
 	}
 	return incr.retries.LowWatermark()
 }
 
-func (incr *incremental[Obj]) processSingle(ctx context.Context, txn statedb.ReadTxn, obj Obj, rev statedb.Revision, delete bool) {
+func (incr *incremental[Obj]) processSingle(ctx context.Context, txn statedb.ReadTxn, obj Obj, rev statedb.Revision, origRev statedb.Revision, delete bool) {
 	start := time.Now()
 
 	var (
@@ -210,7 +211,7 @@ func (incr *incremental[Obj]) processSingle(ctx context.Context, txn statedb.Rea
 		err = incr.config.Operations.Delete(ctx, txn, rev, obj)
 		if err != nil {
 			// Deletion failed. Retry again later.
-			incr.retries.Add(obj, rev, rev, true, err)
+			incr.retries.Add(obj, rev, origRev, true, err)
 		}
 	} else {
 		// Clone the object so it can be mutated by Update()
@@ -219,7 +220,7 @@ func (incr *incremental[Obj]) processSingle(ctx context.Context, txn statedb.Rea
 		op = OpUpdate
 		err = incr.config.Operations.Update(ctx, txn, rev, obj)
 		status := incr.config.GetObjectStatus(obj)
-		incr.results[obj] = opResult{original: orig, id: status.ID, rev: rev, err: err}
+		incr.results[obj] = opResult{original: orig, id: status.ID, rev: rev, origRev: origRev, err: err}
 	}
 	incr.metrics.ReconciliationDuration(incr.moduleID, incr.name, op, time.Since(start))
 
@@ -273,7 +274,7 @@ func (incr *incremental[Obj]) commitStatus() (numErrors int) {
 			// Reconciliation of the object had failed and the status was updated
 			// successfully (object had not changed). Queue the retry for the object.
 			newRevision := incr.table.Revision(wtxn)
-			incr.retries.Add(result.original.(Obj), newRevision, result.rev, false, result.err)
+			incr.retries.Add(result.original.(Obj), newRevision, result.origRev, false, result.err)
 		}
 	}
 	return
